@@ -91,8 +91,8 @@ CHECKS["C07"] = dict(
          "over the interval must be refused, a never-seen label must be accepted (an unexplained refusal is re-tried under two re-randomisations of all salts), a burst has exactly one winner. "
          "(Server) two StreamHandlers with different key lists sharing one cache, handshakes presented on either. "
          "Non-trivial = a repeat at distance within +-1 of the capacity, a burst with the cache enabled, or a handshake presented on both services. Distinct = canonical case JSON.",
-    assumptions=["the 32-bit checksum construction is not modelled: collisions are handled by re-randomisation (rule 4)", "across-reload sharing of the cache is exercised by the C10 executor scenarios"],
-    units=[unit("props", ["Cache", "Server"], "C07")],
+    assumptions=["the 32-bit checksum construction is not modelled: collisions are handled by re-randomisation (rule 4)", "(Reload) the real main package with -replay_history N in the executor: two retained services sharing one key, handshakes presented on either, interleaved with generated reloads; non-trivial = a refused replay whose earlier presentation was on the other service or before a reload"],
+    units=[unit("props", ["Cache", "Server"], "C07"), unit("props", ["Reload"], "C07", needs=["inpkg-main"])],
 )
 CHECKS["C08"] = dict(
     level="exploration",
